@@ -4,13 +4,23 @@ usage: baseline.py [repo_dir]   exit 0 iff every stable_pass test passed."""
 import json, os, subprocess, sys, tempfile, xml.etree.ElementTree as ET
 repo = sys.argv[1] if len(sys.argv) > 1 else "/repo"
 base = json.load(open("/root/.vp/BASELINE.json"))
+import shutil
 with tempfile.TemporaryDirectory() as d:
     junit = os.path.join(d, "j.xml")
+    # the suite's hypothesis tests write found counter-examples into <repo>/.hypothesis (git-ignored) and replay
+    # them for ever after: snapshot and restore it so that running the baseline leaves the tree as it was
+    hyp = os.path.join(repo, ".hypothesis")
+    had = os.path.isdir(hyp)
+    if had:
+        shutil.copytree(hyp, os.path.join(d, "hyp"))
     env = {k: v for k, v in os.environ.items() if k not in ("BIONUMPY_VERIF",)}
     env["PYTHONPATH"] = repo
     p = subprocess.run(["/venv/bin/python", "-m", "pytest", "-q", "-p", "no:cacheprovider", "--timeout=900",
                         "--continue-on-collection-errors", "-n", os.environ.get("BASELINE_N", "8"), f"--junitxml={junit}"],
                        cwd=repo, env=env, capture_output=True, text=True)
+    shutil.rmtree(hyp, ignore_errors=True)
+    if had:
+        shutil.copytree(os.path.join(d, "hyp"), hyp)
     passed = set()
     for tc in ET.parse(junit).getroot().iter("testcase"):
         if not any(ch.tag in ("failure", "error", "skipped") for ch in tc):
